@@ -104,11 +104,27 @@ def kind(v, names):
     return "scalar"
 
 
+def periodic_list_omits_axis_without_grid_boundary(case, names):
+    """Input class of the open finding C02-periodic-list."""
+    p, b = case["grid"]["periodic"], case["grid"]["boundary"]
+    if not isinstance(p, list):
+        return False
+    for n in names:
+        if n not in p:
+            named = (b.get(n) is not None) if isinstance(b, dict) else (b is not None)
+            if not named:
+                return True
+    return False
+
+
 def check(case, ctx):
     from xgcm.padding import pad
 
     axes = case["axes"]
     names = [a["name"] for a in axes]
+    if ctx.known("C02-periodic-list") and periodic_list_omits_axis_without_grid_boundary(case, names):
+        ctx.count_excluded("C02-periodic-list")
+        return {"nontrivial": False, "classes": ["excluded:C02-periodic-list"]}
     by_name = {a["name"]: a for a in axes}
     shape = np.shape(case["values"])
     ds = build.make_dataset(axes, [(d, s) for d, s in zip(case["dims"], shape) if d.startswith("e")])
